@@ -254,6 +254,9 @@ func (p *parser) readStructType() *Type {
 				}
 
 			} else {
+				if len(t.Fields) > 0 && t.Kind != TypeEnum {
+					return nil
+				}
 				t.Kind = TypeEnum
 				p.backup()
 			}
